@@ -113,6 +113,9 @@ func (p *FunctionBuilder) CreateFunction(m *bmodel.MethodEntry) (*gmodel.Functio
 	if err != nil {
 		return nil, err
 	}
+	if !m.RetError() && returnsError(assignments) {
+		return nil, logger.Errorf("%v: cannot use a converter or getter that returns error, the method does not return error", p.fset.Position(m.Method.Pos()))
+	}
 
 	preProcess, err := p.buildManipulator(m.Opts.PreProcess, src, dst, additionalArgs, m.RetError())
 	if err != nil {
@@ -138,6 +141,22 @@ func (p *FunctionBuilder) CreateFunction(m *bmodel.MethodEntry) (*gmodel.Functio
 	}
 
 	return fn, nil
+}
+
+// returnsError reports whether any of the assignments, at any nesting depth, yields an error value.
+func returnsError(assignments []gmodel.Assignment) bool {
+	for _, a := range assignments {
+		if a == nil {
+			continue
+		}
+		if a.RetError() {
+			return true
+		}
+		if nest, ok := a.(gmodel.NestStruct); ok && returnsError(nest.Contents) {
+			return true
+		}
+	}
+	return false
 }
 
 // createVar creates a gmodel.Var from a types.Var.
